@@ -16,7 +16,8 @@ MANIFEST = {
                   "The specification's K[64] and H0[8] are proved to be the 32-bit fractions of the cube/square roots of the first "
                   "64/8 primes (integer inequalities), its padding length to be the smallest solution FIPS asks for, and it reproduces the "
                   "FIPS example digests and RFC 4231 cases 1-4,6,7 by kernel evaluation. The model is tied to the code by tables, rotation "
-                  "amounts, sizes, pad bytes and the operators of verify's comparison loop (initial value, accumulation operator, per-byte "
+                  "amounts, sizes, pad bytes, the declared widths of bit_len_ / its cast / buffer_size_ (the model truncates to them; obligation: 64 bits) "
+                  "and the operators of verify's comparison loop (initial value, accumulation operator, per-byte "
                   "difference operator, final test: interpreted by the model, with the obligation that they are 0, |, ^, == 0) regenerated "
                   "from Sha256.cpp/HmacSha256.cpp on every run (proved equal to the "
                   "specification's) and by a differential run of the real Sha256/HmacSha256 (ASan/UBSan, exact-size buffers) against "
